@@ -29,3 +29,28 @@ def nf_spec(theory, Q2):
 
 def rows_by_pid(t):
     return {pid: t[i] for i, pid in enumerate(spec.PIDS)}
+
+
+def compare(resA, resB, row_map=None, sign=1.0, tol=1e-11):
+    """compare two ESFResults key by key: A[key][pid] ?= sign * B[key][row_map(pid)].
+    returns None or a description of the worst difference"""
+    worst = None
+    keys = sorted(set(resA.orders) | set(resB.orders))
+    for k in keys:
+        a = tensor(resA, k); b = tensor(resB, k)
+        if a is None:
+            a = np.zeros_like(b)
+        if b is None:
+            b = np.zeros_like(a)
+        scale = max(1.0, float(np.max(np.abs(a))), float(np.max(np.abs(b))))
+        for i, pid in enumerate(spec.PIDS):
+            src = pid if row_map is None else row_map(pid)
+            j = spec.PIDS.index(src)
+            d = float(np.max(np.abs(a[i] - sign * b[j])))
+            if d > tol * scale and (worst is None or d > worst["diff"]):
+                worst = dict(key=list(k), pid=pid, diff=d, scale=scale, a=a[i].tolist(), b=(sign * b[j]).tolist())
+    return worst
+
+
+def conj(pid):
+    return -pid if abs(pid) <= 6 else pid
